@@ -46,6 +46,7 @@ fn main() {
         "C11" => vcheck::checks::hchecks::c11(tier, seed),
         "C14" => vcheck::checks::hchecks::c14(tier, seed),
         "C16" => vcheck::checks::c16::run(tier, seed),
+        "C15" => vcheck::checks::c15::run(tier, seed),
         "C09" => vcheck::checks::c09::run(tier, seed),
         "C13" => vcheck::checks::c13::run(tier, seed),
         _ => {
